@@ -100,6 +100,66 @@ func (e *Engine) Advance(ms int64) {
 	e.Trace = append(e.Trace, TraceStep{Op: "advance", Ms: ms})
 }
 
+// Tick runs one pass of the background expiry sampler (hook H2) for every database in use and then
+// compares the state: a pass may only remove keys that are past their deadline, which the model has
+// already forgotten, so the expected state is unchanged.
+func (e *Engine) Tick() *Failure {
+	e.Trace = append(e.Trace, TraceStep{Op: "tick"})
+	var devs []findings.Deviation
+	func() {
+		defer func() {
+			if r := recover(); r != nil {
+				devs = append(devs, findings.Deviation{Kind: "panic", Panic: fmt.Sprintf("expiry sampler: %v", r)})
+			}
+		}()
+		dbs := []int{e.M.Cur}
+		if e.CompareAll {
+			dbs = e.DBs
+		}
+		for _, db := range dbs {
+			if err := e.S.DB.VerifRunExpirySampler(db); err != nil {
+				devs = append(devs, findings.Deviation{Kind: "panic", Panic: "expiry sampler returned an error: " + err.Error()})
+			}
+		}
+	}()
+	e.M.Touched = e.M.Touched[:0]
+	e.M.Soft = false
+	for _, k := range e.Keys {
+		obs := model.Observe(e.doer(), k)
+		if d := model.CompareKey(k, e.M.Expected(e.M.Cur, k), obs); d != nil {
+			devs = append(devs, findings.Deviation{Kind: "state", Diff: d})
+		}
+	}
+	if len(devs) == 0 {
+		return nil
+	}
+	ctx := &findings.Ctx{Cmd: []string{"@TICK"}, Pre: e.M.Clone(), NowMs: e.M.NowMs()}
+	var un []findings.Deviation
+	for i := range devs {
+		if id := findings.Explain(ctx, &devs[i]); id != "" {
+			e.Hits[id]++
+			if e.Rec != nil {
+				e.Rec.Excluded(id)
+			}
+		} else {
+			un = append(un, devs[i])
+		}
+	}
+	if len(un) > 0 {
+		if surveyFile != nil {
+			for _, d := range un {
+				fmt.Fprintf(surveyFile, "@TICK | [\"@TICK\"] | %s |\n", strings.ReplaceAll(d.String(), "\n", " // "))
+			}
+		} else {
+			return &Failure{Step: len(e.Trace) - 1, Cmd: []string{"@TICK"}, Devs: un}
+		}
+	}
+	for _, k := range e.Keys {
+		e.M.Adopt(e.M.Cur, k, model.Observe(e.doer(), k))
+	}
+	return nil
+}
+
 // Exec runs one command on both sides and compares.
 func (e *Engine) Exec(cmd ...string) *Failure {
 	pre := e.M.Clone()
